@@ -48,7 +48,7 @@ func c12Fragment(seqNr uint32, t0 uint64, nSamples int, base byte) (*Fragment, u
 
 // c12Build: init + media built with the real constructors. layout: one character per
 // fragment, 'S' = preceded by styp (new segment), 'f' = further fragment of the segment,
-// 'D' = like 'S' but with two segment-level sidx boxes after the styp, 'N' = fragment without styp before it, 'T' = like 'N' but the start of a segment according to the tfra; optional suffix 'M' = mfra at the end (one tfra entry
+// 'D' = like 'S' but with two segment-level sidx boxes after the styp, 'N' = fragment without styp before it, 'T' = like 'N' but the start of a segment according to the tfra (or, with a leading 'X', according to a top-level sidx); optional suffix 'M' = mfra at the end (one tfra entry
 // per segment), 'E' = emsg before the first fragment.
 func c12Build(layout string) *c12File {
 	cf := &c12File{}
@@ -58,6 +58,13 @@ func c12Build(layout string) *c12File {
 		panic("harness: init encode")
 	}
 	out := append([]byte{}, ib.Bytes()...)
+	// a leading 'X': the segments ('T' fragments) are delimited by a top-level sidx box placed
+	// between the init boxes and the first moof (one reference per segment)
+	topSidx := len(layout) > 0 && layout[0] == 'X'
+	if topSidx {
+		layout = layout[1:]
+	}
+	initLen := len(out)
 	t0 := vfy.U64("t0")
 	vfy.Assume(t0 < 1<<40)
 	t := t0
@@ -121,6 +128,19 @@ func c12Build(layout string) *c12File {
 		cf.segDur[len(cf.segDur)-1] += sum
 		t += uint64(sum)
 	}
+	if topSidx {
+		sx := CreateSidx(0)
+		sx.ReferenceID, sx.Timescale = 1, 90000
+		for i, p := range segStarts {
+			end := uint64(len(out))
+			if i+1 < len(segStarts) {
+				end = segStarts[i+1]
+			}
+			sx.SidxRefs = append(sx.SidxRefs, SidxRef{ReferencedSize: uint32(end - p), SubSegmentDuration: 1, StartsWithSAP: 1, SAPType: 1})
+		}
+		media := append([]byte{}, out[initLen:]...)
+		out = append(append(out[:initLen:initLen], encBox(sx)...), media...)
+	}
 	cf.mediaEnd = len(out)
 	if withMfra {
 		tfra := &TfraBox{TrackID: 1}
@@ -157,7 +177,10 @@ func VerifC12Grouping(layout string, flags int, sr bool) {
 		return
 	}
 	want := cf.segFrags
-	if len(cf.tfraFrags) > 0 && flags&int(DecISMFlag) != 0 {
+	if len(layout) > 0 && layout[0] == 'X' {
+		// a top-level sidx gives the segment boundaries, whatever the flags
+		want = cf.tfraFrags
+	} else if len(cf.tfraFrags) > 0 && flags&int(DecISMFlag) != 0 {
 		// the mfra/tfra gives the segment boundaries; it takes priority over start-on-moof
 		want = cf.tfraFrags
 	} else if flags&int(DecStartOnMoof) != 0 {
